@@ -8,6 +8,14 @@ ABSENT = 'absent'
 NA = 'na'
 
 _DEEP_ARR = [1, [2, [3, [4, {"k": [None, True, 1.5, "é"]}]]]]
+def _nest(n):
+    v = 'bottom'
+    for _ in range(n):
+        v = [v]
+    return v
+
+
+_DEEP64 = [1, _nest(63)]        # the params array itself is level 1
 _DEEP_OBJ = {"a": {"b": {"c": [1, {"d": None}], "e": ""}}, "z": [[], {}]}
 
 CONCRETE = {
@@ -16,11 +24,11 @@ CONCRETE = {
     'f1_0': 1.0, 'f1_5': 1.5, 'f2_0': 2.0,
     's_empty': '', 's_a': 'a', 's_b': 'b', 's_1': '1', 's_v20': '2.0', 's_v10': '1.0',
     's_esc': 'q"\\\n\t\u0000\u001fé中\U0001F600/',
-    'a_empty': [], 'a_1': [1], 'a_deep': _DEEP_ARR,
+    'a_empty': [], 'a_1': [1], 'a_deep': _DEEP_ARR, 'a_deep64': _DEEP64,
     'o_empty': {}, 'o_a': {'a': 1}, 'o_deep': _DEEP_OBJ,
     'm_ok': 'ok', 'm_one': 'one', 'm_perr': 'perr', 'm_exc': 'exc', 'm_unk': 'nope',
     'mw_short': 'mw_short', 'mw_rewritten': 'mw_rewritten',
-    'r_none': {'a': None, 'b': None}, 'r_a1': {'a': 1, 'b': None}, 'r_deep': {'a': 1, 'b': _DEEP_ARR[1]},
+    'r_none': {'a': None, 'b': None}, 'r_a1': {'a': 1, 'b': None}, 'r_deep': {'a': 1, 'b': _DEEP_ARR[1]}, 'r_deep64': {'a': 1, 'b': _DEEP64[1]},
     'r_one_a1': {'a': 1, 'only': 'one'},
     'c_m32700': -32700, 'c_m32600': -32600, 'c_m32601': -32601, 'c_m32602': -32602,
     'c_m32603': -32603, 'c_m32000': -32000, 'c_m32050': -32050, 'c_2001': 2001,
